@@ -171,11 +171,19 @@ def load_known_findings():
     return json.load(open(path)).get('findings', [])
 
 
-def match_known(prop, ob_id, findings):
+def match_known(prop, ob_id, findings, verdict=None):
+    """A refuted obligation is a known finding if it is listed under an open finding of this property
+    and, where the finding records a witness signature for it (the exact set of failing inputs), the
+    signature of this run's witness is the same - a different failing set is a new violation."""
     for f in findings:
         if f.get('status', 'open') != 'open':
             continue
         if prop in f['properties'] and ob_id in f['obligations']:
+            want = (f.get('signatures') or {}).get(ob_id)
+            if want is not None:
+                got = ((verdict.witness or {}) if verdict is not None else {}).get('signature')
+                if got != want:
+                    continue
             return f
     return None
 
@@ -228,7 +236,7 @@ def run_check(prop, module, tier, seed):
         if ob.bounded:
             n_bounded += 1
             if v.status == 'refuted':
-                kf = match_known(prop, ob.id, findings)
+                kf = match_known(prop, ob.id, findings, v)
                 (known_hit if kf else violations).append((ob, v, kf))
             elif v.status == 'unknown':
                 undecided.append((ob, v))
@@ -238,7 +246,7 @@ def run_check(prop, module, tier, seed):
             n_discharged += 1
             by_backend[v.backend] = by_backend.get(v.backend, 0) + 1
         elif v.status == 'refuted':
-            kf = match_known(prop, ob.id, findings)
+            kf = match_known(prop, ob.id, findings, v)
             if kf:
                 known_hit.append((ob, v, kf))
                 n_real -= 1          # reported separately: not part of the obligations claimed to hold
